@@ -199,6 +199,28 @@ def exhaustive_cases(depth, kinds=("recv", "recvfrom", "send", "sendto", "accept
                     yield kind + "/" + mname, mk_socket(0, 2, typ, proto, 5, blocking, timeout) + sc + tl + [call_line(kind, 0)]
 
 
+def eintr_kth_cases(kmax=6):
+    """C19, socket part: EINTR injected at the k-th invocation of each blocking native call site (the earlier
+    invocations are made to happen by would-block rounds), exhaustive for k <= kmax, every call kind, with/without timeout"""
+    ei, ea = "e%d" % E.EINTR, "e%d" % E.EAGAIN
+    for kind in ("recv", "recvfrom", "send", "sendto", "accept"):
+        good = data_alpha(kind, 4, "a1b2c3d4")[0]
+        typ, proto = (2, 17) if kind in ("recvfrom", "sendto") else (1, 6)
+        for timeout in (0, 50):
+            for site in ("poll", kind):
+                for k in range(1, kmax + 1):
+                    sc = []
+                    for _ in range(k - 1):
+                        sc += [sysl("poll", 1), sysl(kind, ea)]
+                    sc += [sysl("poll", ei), sysl("poll", 1)] if site == "poll" else [sysl("poll", 1), sysl(kind, ei), sysl("poll", 1)]
+                    sc.append(sysl(kind, good[0], **good[1]))
+                    yield "c19/%s@%s" % (site, kind), mk_socket(0, 2, typ, proto, 5, True, timeout) + sc + tail_for(kind, sc) + [call_line(kind, 0)]
+    for k in range(1, kmax + 1):        # connect(): k-1 EINTRs are themselves the earlier invocations; and its wait
+        sc = [sysl("connect", ei)] * k + [sysl("connect", "e%d" % E.EINPROGRESS)] + [sysl("poll", ei)] * k + [sysl("poll", 1), sysl("getsockopt", 0, v=0)]
+        yield "c19/connect", mk_socket(0) + sc + [call_line("connect", 0)]
+        yield "c19/wait", mk_socket(0) + [sysl("poll", ei)] * k + [sysl("poll", 1), "wait 0 2"]
+
+
 # ---- structured long scripts: k EINTRs / EAGAIN bursts / short transfers in all positions
 
 def structured_loop(rng, kind, blocking, buflen, payload):
@@ -483,14 +505,17 @@ def replay(chk, path, view):
 def scripted_cases(chk, thorough, which):
     """corpus + exhaustive small scope + structured + random sequences"""
     rng = chk.rng
-    depth = 5 if thorough else 4
+    depth = 6 if thorough else 5
     ex = []
     for label, ops in exhaustive_cases(depth):
         chk.bump("exh:" + label)
         ex.append(ops)
+    for label, ops in eintr_kth_cases(6):
+        chk.bump("exh:" + label)
+        ex.append(ops)
     life = list(lifecycle_exhaustive(3 if thorough else 2)) if which == "C10" else []
-    nstruct = (20000 if thorough else 2500) if which == "C09" else (4000 if thorough else 800)
-    nseq = (1500 if thorough else 150) if which == "C09" else (12000 if thorough else 1200)
+    nstruct = (40000 if thorough else 8000) if which == "C09" else (10000 if thorough else 2500)
+    nseq = (5000 if thorough else 1000) if which == "C09" else (30000 if thorough else 5000)
     structured = [structured_case(rng, chk) for _ in range(nstruct)]
     seqs = [random_sequence(rng, rng.choice([10, 25, 60]), chk) for _ in range(nseq)]
     chk.cov["exhaustive_small_scope"] = {"loop_script_depth": depth, "alphabet_per_data_call": 6, "poll_alphabet": len(POLL_ALPHA),
